@@ -111,6 +111,7 @@ namespace fastscapelib
         std::vector<std::atomic<std::uint8_t>> m_has_job;
         std::size_t m_size;
         bool m_started = false, m_paused = false;
+        bool m_resumed = false;  // protected by m_cv_m
         std::atomic<std::size_t> m_paused_count = 0;
 
         std::condition_variable m_cv;
